@@ -111,7 +111,7 @@ def explicit_guard(prog, body, pairs, want):
     for alt in alts_:
         ok = True
         for (s, b) in alt:
-            g = G("guard", body, s, b, NE, EQ, want, interproc=False)
+            g = G("guard", body, s, b, NE, EQ, want, interproc=True)
             r, detail, sites, _ = e1.eval_guard(prog, g, body)
             if not r:
                 ok = False
@@ -355,6 +355,18 @@ def norm_sign_rule(prog, body):
                 n_sites += 1
                 if _raw_dep(v, elem):
                     problems.append(f"accumulation at {body.where(bb)}: the element is added without abs(): `{render(v)[:60]}`")
+    # loop form of a running extremum: `if !(largest > v) { largest = v; }` with v derived from the element
+    elem = lambda s: (s[0] == "variant" and s[2] == "Some") or s[0] == "idx" or (s[0] == "call" and s[1].endswith("::get"))
+    seen_acc = set()
+    for c in BodyCtx.of(body).cmps:
+        for (A, V) in ((c.lhs, c.rhs), (c.rhs, c.lhs)):
+            if A[0] != "phi" or A[1] in seen_acc or not any(elem(x) for x in subterms(V)):
+                continue
+            if any(d.kind == "assign" and res.rvalue(d.data["r"], 0, ()) == V for d in body.defs.get(A[1], [])):
+                seen_acc.add(A[1])
+                n_sites += 1
+                if _raw_dep(V, elem):
+                    problems.append(f"running extremum at {c.where}: the element is compared / stored without abs(): `{render(V)[:60]}`")
     if n_sites < 3:
         problems.append(f"only {n_sites} accumulation sites recognised (expected the +inf, -inf and p-norm branches)")
     return problems
